@@ -38,7 +38,10 @@ thread_local! {
 
 fn main() {
     // the same stack size as the real binary (cli/src/main.rs runs on a 1 GB thread)
-    let handle = std::thread::Builder::new().stack_size(1024 * 1024 * 1024).spawn(real_main).expect("spawn");
+    // (pure arithmetic / string commands keep the default stack so that a runaway recursion ends quickly)
+    let cmd = std::env::args().nth(1).unwrap_or_default();
+    let stack = if matches!(cmd.as_str(), "field" | "strip" | "dom" | "curve" | "tables" | "primes") { 8 } else { 1024 } * 1024 * 1024;
+    let handle = std::thread::Builder::new().stack_size(stack).spawn(real_main).expect("spawn");
     if handle.join().is_err() {
         std::process::exit(101);
     }
@@ -60,6 +63,7 @@ fn real_main() {
                 let line = line.unwrap();
                 let reply = with_catch(move || field::handle(&line));
                 writeln!(out, "{}", reply).unwrap();
+                out.flush().unwrap();
             }
         }
         "strip" => {
@@ -67,6 +71,7 @@ fn real_main() {
                 let line = line.unwrap();
                 let reply = with_catch(move || strip::handle(&line));
                 writeln!(out, "{}", reply).unwrap();
+                out.flush().unwrap();
             }
         }
         "analyze" => {
@@ -90,6 +95,7 @@ fn real_main() {
                 let line = line.unwrap();
                 let reply = with_catch(move || dom::handle(&line));
                 writeln!(out, "{}", reply).unwrap();
+                out.flush().unwrap();
             }
         }
         "lift" => {
@@ -97,6 +103,7 @@ fn real_main() {
                 let line = line.unwrap();
                 let reply = with_catch(move || lift::handle(&line));
                 writeln!(out, "{}", reply).unwrap();
+                out.flush().unwrap();
             }
         }
         "desugar" => {
@@ -104,6 +111,7 @@ fn real_main() {
                 let line = line.unwrap();
                 let reply = with_catch(move || desugar::handle(&line));
                 writeln!(out, "{}", reply).unwrap();
+                out.flush().unwrap();
             }
         }
         "taint" => {
@@ -111,6 +119,7 @@ fn real_main() {
                 let line = line.unwrap();
                 let reply = with_catch(move || taint::handle(&line));
                 writeln!(out, "{}", reply).unwrap();
+                out.flush().unwrap();
             }
         }
         "defpasses" => {
@@ -118,6 +127,7 @@ fn real_main() {
                 let line = line.unwrap();
                 let reply = with_catch(move || defpasses::handle(&line));
                 writeln!(out, "{}", reply).unwrap();
+                out.flush().unwrap();
             }
         }
         "curve" => {
@@ -125,6 +135,7 @@ fn real_main() {
                 let line = line.unwrap();
                 let reply = with_catch(move || defpasses::curve(&line));
                 writeln!(out, "{}", reply).unwrap();
+                out.flush().unwrap();
             }
         }
         "tables" => {
